@@ -101,9 +101,15 @@ package directinvoke
 //@ event RuntimeErrorTypeTrailerRead = ret net/http.(Header).Get when a1 == FunctionErrorTypeTrailer
 //@ event ErrorTypeTrailerSet = call net/http.(Header).Set when a1 == FunctionErrorTypeTrailer
 //@ event ResetInterruptsTheCopy = recv call:interruptedResponseChan
+// C17 ("the copy always terminates ... for resets arriving at any point of the copy"): a copy parked in the runtime's Body.Read is
+// released only by closing the runtime's connection; the reset branch therefore closes it before it waits for the copy to end
+//@ event RuntimeConnectionClosed = call interop.(*CancellableRequest).Cancel
+//@ event CopyEndAwaited = recv local:directinvoke.sendStreamingInvokeResponse.copyDone
+//@ event ResetSeenByTheStreamingCopy = recv local:directinvoke.sendStreamingInvokeResponse.interruptedResponseChan
 //@ func sendStreamingInvokeResponse
 //@   extfunc cancel
 //@   modifies directSend, directEvents
+//@   ensures [C17: a-reset-closes-the-runtime's-connection-before-it-waits-for-the-copy] delta(ResetSeenByTheStreamingCopy) == 1 && request != nil ==> delta(RuntimeConnectionClosed) == 1 && delta(CopyEndAwaited) == 1 && first(RuntimeConnectionClosed) < first(CopyEndAwaited)
 //@   ensures [C20: an-error-type-the-runtime-reports-in-the-trailer-is-sanitised] delta(RuntimeErrorTypeTrailerRead) == 1 && lastret(RuntimeErrorTypeTrailerRead) != "" && delta(ErrorTypeTrailerSet) == 1 ==> inre(lastarg(ErrorTypeTrailerSet, 2), "^(Runtime|Function)\\.[A-Z][a-zA-Z]*$")
 //@ func sendStreamingInvokeErrorResponse
 //@   extfunc cancel
